@@ -11,8 +11,8 @@
    trusted to be inverse on these (stdlib, observed by the harness). *)
 From Coq Require Import String Ascii.
 From GV Require Import Prelude RingM.
-Open Scope Z_scope.
 Open Scope string_scope.
+Open Scope Z_scope.
 
 Inductive json :=
 | JNull
@@ -227,7 +227,7 @@ Definition num_of (j : json) : option Z :=
   | _ => None
   end.
 
-(* Coordinate(**dict(zip(('longitude','latitude','z'), x))) *)
+(* Coordinate( ** dict(zip(('longitude','latitude','z'), x))) *)
 Definition parse_pos (j : json) : res coord :=
   match j with
   | JArr (a :: b :: rest) =>
